@@ -35,7 +35,12 @@ PROP = {
                              "fork_second_restarts": 7000, "fork_trimmed_keystones": 5000,
                              "fork_purged_circuits": 2500, "fork_kept_by_resolution": 400,
                              "dup_failed_back_after_restart": 2000, "dup_dropped_has_keystone": 2500,
-                             "second_response_rejected": 400, "write_failures_injected": 1000}},
+                             "second_response_rejected": 400, "write_failures_injected": 1000},
+                   "thorough": {"ops": 3000000, "model_compare_evals": 5000000, "fork_restarts": 1500000,
+                                "fork_second_restarts": 700000, "fork_trimmed_keystones": 500000,
+                                "fork_purged_circuits": 250000, "fork_kept_by_resolution": 40000,
+                                "dup_failed_back_after_restart": 200000, "dup_dropped_has_keystone": 250000,
+                                "second_response_rejected": 40000, "write_failures_injected": 100000}},
     }, {
         "name": "conc", "pkg": "htlcswitch", "test": "TestVerifC07Conc",
         "files": ["htlcswitch/c07_test.go", "htlcswitch/c07conc_test.go"],
@@ -44,6 +49,7 @@ PROP = {
         "shards": {"quick": 8, "thorough": 16},
         "watchdog": {"quick": 900, "thorough": 5400},
         "gomaxprocs": 4,
-        "floors": {"quick": {"histories_linearizable": 800, "conc_ops": 19000}},
+        "floors": {"quick": {"histories_linearizable": 800, "conc_ops": 19000},
+                   "thorough": {"histories_linearizable": 20000, "conc_ops": 480000}},
     }],
 }
